@@ -844,3 +844,109 @@ func (m *Machine) deepEqual(x, y Value, depth int) Value {
 	}
 	return m.eqVal(x, y)
 }
+
+// ---------------------------------------------------------------- JSON as identity on Go values
+//
+// encoding/json and tmjson are reflection-driven.  Where a harness needs them (FilePV key/state
+// files) Marshal returns an opaque concrete token and remembers a deep copy of the value;
+// Unmarshal of exactly that token restores the copy, anything else (e.g. a torn write) is an error.
+
+type jsonKey struct{ tok string }
+
+func (m *Machine) deepCopy(v Value, seen map[*Value]*Value) Value {
+	switch x := v.(type) {
+	case *Value:
+		if x == nil {
+			return x
+		}
+		if c, ok := seen[x]; ok {
+			return c
+		}
+		c := new(Value)
+		seen[x] = c
+		*c = m.deepCopy(*x, seen)
+		return c
+	case Struct:
+		r := make(Struct, len(x))
+		for i := range x {
+			r[i] = m.deepCopy(x[i], seen)
+		}
+		return r
+	case Array:
+		r := make(Array, len(x))
+		for i := range x {
+			r[i] = m.deepCopy(x[i], seen)
+		}
+		return r
+	case Slice:
+		if x == nil {
+			return x
+		}
+		r := make(Slice, len(x))
+		for i := range x {
+			r[i] = m.deepCopy(x[i], seen)
+		}
+		return r
+	case Iface:
+		return Iface{T: x.T, V: m.deepCopy(x.V, seen)}
+	case *Map:
+		if x == nil {
+			return x
+		}
+		r := newMap(x.kt)
+		for _, e := range x.entries {
+			if !e.deleted {
+				ne := &mapEntry{k: e.k, v: m.deepCopy(e.v, seen), ckey: e.ckey, conc: e.conc}
+				r.entries = append(r.entries, ne)
+				if ne.conc {
+					r.index[ne.ckey] = ne
+				} else {
+					r.nsym++
+				}
+				r.live++
+			}
+		}
+		return r
+	}
+	return v
+}
+
+func init() {
+	marshal := func(m *Machine, fr *frame, a []Value) Value {
+		m.jsonSeq++
+		tok := fmt.Sprintf("{\"vpjson\":%d}", m.jsonSeq)
+		m.side[jsonKey{tok}] = m.deepCopy(a[0], map[*Value]*Value{})
+		return Tuple{bytesOf([]byte(tok)), Iface{}}
+	}
+	unmarshal := func(m *Machine, fr *frame, a []Value) Value {
+		b, ok := concBytes(a[0])
+		if !ok {
+			panic(pathEnd{kind: "unsupported", msg: "json.Unmarshal of symbolic bytes"})
+		}
+		saved, ok := m.side[jsonKey{string(b)}]
+		if !ok {
+			return m.mkError("json: cannot decode (not a value written by Marshal, e.g. a torn write)")
+		}
+		dst := a[1].(Iface)
+		src := m.deepCopy(saved, map[*Value]*Value{}).(Iface)
+		dp, ok := dst.V.(*Value)
+		if !ok || dp == nil {
+			return m.mkError("json: Unmarshal(non-pointer)")
+		}
+		// dst is *T; the saved value is T or *T
+		if types.Identical(dst.T, src.T) {
+			store(dp, *(src.V.(*Value)))
+			return Iface{}
+		}
+		if pt, ok := dst.T.Underlying().(*types.Pointer); ok && types.Identical(pt.Elem(), src.T) {
+			store(dp, src.V)
+			return Iface{}
+		}
+		return m.mkError("json: type mismatch " + src.T.String() + " into " + dst.T.String())
+	}
+	for _, p := range []string{"github.com/tendermint/tendermint/libs/json", "encoding/json"} {
+		reg(p+".Marshal", marshal)
+		reg(p+".MarshalIndent", marshal)
+		reg(p+".Unmarshal", unmarshal)
+	}
+}
